@@ -107,6 +107,32 @@ func init() {
 		"math.Float64bits":     extFloat64bits,
 		"math.Float64frombits": extFloat64frombits,
 		"math/rand/v2.Float64": extRand,
+		// the other draws of the random source: a deterministic sequence that differs from call to call (a per-path
+		// counter), so that a result that must not depend on randomness comes out different in two runs of the same call
+		"math/rand/v2.Perm":    extRandPerm,
+		"math/rand.Perm":       extRandPerm,
+		"math/rand/v2.IntN":    extRandIntN,
+		"math/rand/v2.Int64N":  extRandIntN,
+		"math/rand/v2.Int32N":  extRandIntN,
+		"math/rand/v2.UintN":   extRandIntN,
+		"math/rand/v2.Uint64N": extRandIntN,
+		"math/rand/v2.Uint32N": extRandIntN,
+		"math/rand.Intn":       extRandIntN,
+		"math/rand.Int63n":     extRandIntN,
+		"math/rand.Int31n":     extRandIntN,
+		"math/rand/v2.Int":     extRandInt,
+		"math/rand/v2.Int64":   extRandInt,
+		"math/rand/v2.Int32":   extRandInt,
+		"math/rand/v2.Uint32":  extRandInt,
+		"math/rand/v2.Uint64":  extRandInt,
+		"math/rand.Int":        extRandInt,
+		"math/rand.Int63":      extRandInt,
+		"math/rand.Int31":      extRandInt,
+		"math/rand.Uint32":     extRandInt,
+		"math/rand.Float64":    extRand,
+		"math/rand/v2.Shuffle": extRandShuffle,
+		"math/rand.Shuffle":    extRandShuffle,
+		"math/rand.Seed":       extNop,
 
 		"encoding/binary.Write": extBinaryWrite,
 		"encoding/binary.Read":  extBinaryRead,
@@ -712,6 +738,44 @@ func extRand(fr *frame, args []value) value {
 		return s
 	}
 	return float64(0.75)
+}
+
+var randCalls int // reset per path (beginPath)
+
+func nextRandCall() int { randCalls++; return randCalls }
+
+func extRandPerm(fr *frame, args []value) value {
+	n := asInt(args[0])
+	c := nextRandCall()
+	out := make([]value, n)
+	for i := range out {
+		out[i] = int((i + c) % n)
+	}
+	return out
+}
+
+func extRandIntN(fr *frame, args []value) value {
+	n := asInt64(args[0])
+	if n <= 0 {
+		rtPanic("invalid argument to IntN")
+	}
+	c := int64(nextRandCall())
+	return conv(fr.fn.Signature.Results().At(0).Type(), types.Typ[types.Int64], (c*7919+3)%n)
+}
+
+func extRandInt(fr *frame, args []value) value {
+	c := int64(nextRandCall())
+	return conv(fr.fn.Signature.Results().At(0).Type(), types.Typ[types.Int64], (c*2654435761+12345)&0x7fffffff)
+}
+
+func extRandShuffle(fr *frame, args []value) value {
+	n := asInt(args[0])
+	c := nextRandCall()
+	for i := n - 1; i > 0; i-- {
+		j := (i*7 + c) % (i + 1)
+		call(fr.i, fr, 0, args[1], []value{i, j})
+	}
+	return nil
 }
 
 // ---------- encoding/binary (LittleEndian) ----------
